@@ -150,15 +150,39 @@ def gen_scenario(rng, prop="C07"):
     rng.shuffle(fire)
     prefill = [nv() for _ in range(rng.choice([0, 0, 1, 2]))]
     prefill = prefill[:maxs]
+    silent = rng.random() < (0.45 if prop in ("C08", "C20") else 0.7)
     return {"max": maxs, "threads": threads, "fire": fire, "ntills": ntills, "prefill": prefill,
-            "allow": rng.random() < 0.15, "close_at_end": rng.random() < 0.5}
+            "allow": rng.random() < 0.15, "close_at_end": rng.random() < 0.5,
+            "silent": silent, "nstall": 0 if silent else rng.choice([0, 1, 2, 3])}
+
+
+def gen_c20(rng):
+    """C20 on queues: threads parked in pop() on an empty queue / in add() on a full one, with little or no other activity"""
+    kind = rng.choice(["idle", "idle", "full", "full", "mixed"])
+    silent = rng.random() < 0.4
+    sc = {"max": 1, "threads": [], "fire": [], "ntills": 0, "prefill": [], "allow": False, "close_at_end": False,
+          "silent": silent, "nstall": 0 if silent else rng.choice([0, 1, 2, 3]), "c20": True}
+    if kind == "idle":
+        for _ in range(rng.randint(1, 3)):
+            sc["threads"].append([["pop"]])
+    elif kind == "full":
+        sc["prefill"] = [100]
+        for i in range(rng.randint(1, 2)):
+            sc["threads"].append([["add", i + 1]])
+    else:
+        sc["prefill"] = [100]
+        sc["threads"].append([["add", 1]])
+        sc["threads"].append([["pop"], ["pop"], ["pop"]])
+        if rng.random() < 0.5:
+            sc["threads"].append([["len"]])
+    return sc
 
 
 def shape(sc):
     ab = {"add": "a", "add_till": "A", "add_force": "f", "push": "p", "extend": "e", "pop": "o", "pop_till": "O",
           "pop_one": "1", "pop_all": "*", "len": "l", "close": "c", "add_stop": "S"}
-    return "m%d:%s:f%d%s" % (sc["max"], "/".join("".join(ab[o[0]] for o in t) for t in sc["threads"]), len(sc["fire"]),
-                             ":C" if sc["close_at_end"] else "")
+    return "m%d:%s:f%d%s%s" % (sc["max"], "/".join("".join(ab[o[0]] for o in t) for t in sc["threads"]), len(sc["fire"]),
+                               ":C" if sc["close_at_end"] else "", "" if sc.get("silent", True) else ":loud%d" % sc.get("nstall", 0))
 
 
 def run_scenario(sc, chooser=None, seed=0, max_steps=6000):
@@ -170,7 +194,9 @@ def run_scenario(sc, chooser=None, seed=0, max_steps=6000):
     please_stop_timers, _ = ds.start_timers(sched)
     st = {"viol": [], "hist": [], "results": {}, "maxlen_open": 0}
 
-    q = queues.Queue("Q", max=sc["max"], silent=True, allow_add_after_close=sc["allow"])
+    silent = sc.get("silent", True)
+    st.update({"stalls": [], "stall_parked": set(), "alerts": 0, "external": 0, "rewaits": {}, "in_wait": set(), "livelock": None})
+    q = queues.Queue("Q", max=sc["max"], silent=silent, allow_add_after_close=sc["allow"])
     q.closed = Flag("closed")
     q.closed._vtag = "closed"
     q.closed.lock = ds.SchedLock()
@@ -190,13 +216,59 @@ def run_scenario(sc, chooser=None, seed=0, max_steps=6000):
     orig_wait = lockmod.Lock.wait
 
     def wait_wrapper(self, till=None):
+        me = sched.me()
         if self is q.lock:
-            sched.note("park", sched.me().name[1:])
-        r = orig_wait(self, till=till)
+            sched.note("park", me.name[1:])
+            st["in_wait"].add(me)
+            if till is not None and any(till is x for _, x in st["stalls"]):
+                st["stall_parked"].add(id(till))
+            ext_before = st["external"]
+        try:
+            r = orig_wait(self, till=till)
+        finally:
+            if self is q.lock:
+                st["in_wait"].discard(me)
         if self is q.lock and not sched.abort:
-            sched.note("wake", sched.me().name[1:], bool(r))
+            sched.note("wake", me.name[1:], bool(r))
+            # C20: a thread that keeps coming back from lock.wait() although nothing happened in between
+            # (no deque change, no close, no till / stall timer fired, no other thread left the lock)
+            if st["external"] == ext_before:
+                n = st["rewaits"].get(me.name, 0) + 1
+                st["rewaits"][me.name] = n
+                if n >= (6 if sc.get("c20") else 40) and st["livelock"] is None:
+                    st["livelock"] = me.name
+            else:
+                st["rewaits"][me.name] = 0
         return r
     lockmod.Lock.wait = wait_wrapper
+
+    orig_exit = lockmod.Lock.__exit__
+
+    def exit_wrapper(self, a, b, c):
+        if self is q.lock:
+            st["external"] += 1        # a thread leaves the `with` block: the one event that may legitimately resume a waiter
+        return orig_exit(self, a, b, c)
+    lockmod.Lock.__exit__ = exit_wrapper
+
+    # a queue that is not silent parks on a fresh `Till(seconds=5)` every turn: a signal fired by the environment thread
+    orig_till, orig_logger = queues.Till, queues.logger
+
+    def stall_timer(seconds=None, till=None, **kw):
+        sig = signals.Signal("stall")
+        me = sched.me()
+        st["stalls"].append((me.name[1:] if me is not None else "?", sig))
+        return sig
+
+    class LoggerShim(object):
+        def __getattr__(self, k):
+            return getattr(orig_logger, k)
+
+        def alert(self, *a, **kw):
+            st["alerts"] += 1
+
+    if not silent:
+        queues.Till = stall_timer
+        queues.logger = LoggerShim()
 
     def body(ti, ops):
         def run():
@@ -276,35 +348,74 @@ def run_scenario(sc, chooser=None, seed=0, max_steps=6000):
 
     def env():
         for x in sc["fire"]:
+            st["external"] += 1
             tills[x].go()
         if sc["close_at_end"]:
             sched.note("call", "env", "close")
+            st["external"] += 1
             q.close()
     if sc["fire"] or sc["close_at_end"]:
         sched.spawn("env", env)
+
+    def staller():
+        # fires stall timers, oldest first, once their owner is parked on them (a 5 s timer does not expire before that)
+        for _ in range(sc.get("nstall", 0)):
+            def ready():
+                return any(id(x) in st["stall_parked"] and not ds.raw(x, "_go") for _, x in st["stalls"])
+            sched.wait_cond(ready)
+            for owner, x in st["stalls"]:
+                if id(x) in st["stall_parked"] and not ds.raw(x, "_go"):
+                    sched.note("env", "stall", owner)
+                    st["external"] += 1
+                    x.go()
+                    break
+    if not silent and sc.get("nstall", 0):
+        sched.spawn("staller", staller, background=True)
+
+    st["dqver"] = None
 
     def on_step(s, vt):
         if not ds.raw(q.closed, "_go"):
             n = deque.__len__(q.queue)
             if n > st["maxlen_open"]:
                 st["maxlen_open"] = n
+        ver = (tuple(deque.__iter__(q.queue)), bool(ds.raw(q.closed, "_go")))
+        if ver != st["dqver"]:
+            st["dqver"] = ver
+            st["external"] += 1
+        if st["livelock"] is not None:
+            s.max_steps = min(s.max_steps, s.steps)   # stop the run: busy waiting detected
 
     sched.on_step = on_step
     try:
         outcome = sched.run()
     finally:
         lockmod.Lock.wait = orig_wait
+        lockmod.Lock.__exit__ = orig_exit
+        queues.Till, queues.logger = orig_till, orig_logger
     stuck = sorted(int(vt.name[1:]) for vt in sched.stuck if vt.name.startswith("t") and vt.name[1:].isdigit())
     lines = to_lines(sched.events)
     lines.append(" ".join(["end", outcome] + [str(t) for t in stuck]))
     final = list(deque.__iter__(q.queue))
     lines.append("final dq=%s closed=%s" % (fmt_list(final), "True" if ds.raw(q.closed, "_go") else "False"))
     viol = monitors(sc, lines, st, outcome, stuck, final, bool(ds.raw(q.closed, "_go")))
+    c20 = []
+    if st["livelock"] is not None:
+        nwait = len([vt for vt in sched.stuck if vt in st["in_wait"] or st["rewaits"].get(vt.name, 0) > 0])
+        msg = ("C20: thread %s keeps returning from lock.wait() inside a Queue method although nothing happened in between (no value "
+               "added or removed, no close, no till or stall timer fired, nobody left the lock): %d times in a row" %
+               (st["livelock"], st["rewaits"].get(st["livelock"], 0)))
+        if nwait >= 2:
+            c20.append({"msg": msg, "signature": "C20/two-or-more-waiters-on-one-lock"})
+        else:
+            viol.append(msg)
+    for who, name, clock in getattr(sched, "timed_wakeups", []):
+        viol.append("C20: thread %s came back from a timed acquire of %s at t=%s although nothing had happened (polling)" % (who, name, clock))
     for vt in sched.vts:
         if vt.exc is not None:
             viol.append("unexpected exception in %s: %r" % (vt.name, vt.exc))
-    return {"lines": lines, "outcome": outcome, "monitor": viol, "choices": list(sched.choices), "steps": sched.steps,
-            "switches": sched.context_switches, "stuck": stuck}
+    return {"lines": lines, "outcome": outcome, "monitor": viol, "c20": c20, "choices": list(sched.choices), "steps": sched.steps,
+            "switches": sched.context_switches, "stuck": stuck, "alerts": st["alerts"]}
 
 
 def kind_name(kind):
@@ -533,7 +644,11 @@ def monitors(sc, lines, st, outcome, stuck, final, closed):
             ops = sc["threads"][ti]
             if done < len(ops):
                 op = ops[done]
-                if op[0] == "add_till" and op[2] in sc["fire"] and len(final) >= sc["max"]:
+                # a queue that is not silent notices the till at the next stall wake-up (at most 5 s later): the producer
+                # is overdue only when the stall timer it is parked on has fired as well
+                mine = [x for o, x in st.get("stalls", []) if o == str(ti)]
+                resumed = sc.get("silent", True) or (mine and bool(ds.raw(mine[-1], "_go")))
+                if op[0] == "add_till" and op[2] in sc["fire"] and len(final) >= sc["max"] and resumed:
                     viol.append("C08: producer %d is still blocked although its till fired" % ti)
                 if op[0] in ("add", "add_till") and len(final) < sc["max"] and not closed:
                     viol.append("C08: producer %d is stranded although the queue has room (%d < %d)" % (ti, len(final), sc["max"]))
